@@ -309,6 +309,7 @@ subroutine k(n, a, i1, r)
     a(i) = max(a(i), 0.5_jprb) + min(real(i, kind=jprb), 2.0_jprb) - abs(a(i))
     i1 = i1 + int(a(i)) + nint(a(i)) + mod(i1, 3_jpim)
     r = r + sign(a(i), -1.0_jprb)*1.0e-2_jprb
+    r = r + real(i, jprb)/3 + real(i1)/7 + real(i, kind=jprb)/9._jprb
   end do
 end subroutine k
 """, 'k')
